@@ -3,7 +3,7 @@
    extracted inductives (no Extract Constant, no native integers). *)
 Require Extraction.
 Require Import ExtrOcamlBasic.
-From CV Require Import Base.Geom Engine.Magic Engine.Encoding Chess.Rules Chess.Fen Engine.PositionRep Engine.RepAbs Chess.History Engine.Classify Chess.San.
+From CV Require Import Base.Geom Engine.Magic Engine.Encoding Chess.Rules Chess.Fen Engine.PositionRep Engine.RepAbs Chess.History Engine.Classify Chess.San Engine.PolyglotInst.
 
 Extraction "model.ml"
   (* geometry specs *)
@@ -23,4 +23,5 @@ Extraction "model.ml"
   (* history spec *)
   move_is_quiet_alg move_is_capture_alg move_gives_check_alg captures_spec quiet_spec gives_check_spec
   san_print san_parse regex_match
+  pg_spec_hash pg_engine_hash read_book lookup random_index best_index decode_move piece_at
   same_position occurred_before occurred_three_times fifty_moves insufficient_material.
